@@ -277,8 +277,12 @@ class LoopMixin:
         work = [[]]
         guard = z3.And(g >= 0, g < hi, seg.cond, *[z3.And(fg >= 0, fg < fhi, fc) for (_fl, _fp, fhi, fg, fc) in seg.outer])
         try:
+            max_counter = cur_counter + 1
             while work:
                 prefix = work.pop()
+                # same fresh-name sequence on every body path, so that a symbol created before a fork is the same symbol
+                # on both sides of it
+                _values._fresh = _it.count(cur_counter + 1)
                 st2, env2 = copy.deepcopy(snap)
                 for n, old in carried.items():
                     e2 = env2.find_env(n)
@@ -310,8 +314,10 @@ class LoopMixin:
                     outcome, payload = "raise", pr.exc
                 except PathEnd:
                     work.extend(st2.dctx[0].alts)
+                    max_counter = max(max_counter, next(_values._fresh))
                     continue
                 work.extend(st2.dctx[0].alts)
+                max_counter = max(max_counter, next(_values._fresh))
                 delta = [c for i, c in enumerate(st2.pc) if i >= n_pc0 and i not in st2.assumed]
                 facts = [c for i, c in enumerate(st2.pc) if i >= n_pc0 and i in st2.assumed and not z3.is_quantifier(c)]
                 results.append(dict(outcome=outcome, payload=payload, cond=z3.And(*delta) if delta else TRUE, st=st2, env=env2,
@@ -320,6 +326,7 @@ class LoopMixin:
                     raise Unsupported("loop body has more than 400 paths")
         finally:
             self.st = orig_st
+            _values._fresh = _it.count(max_counter + 1)
         exits = [r for r in results if r["outcome"] != "normal"]
         normals = [r for r in results if r["outcome"] == "normal"]
 
